@@ -7,7 +7,7 @@ use crate::{
     reader::FileReaderError,
 };
 
-use super::{ParserNode, StringLexError, StringLexErrorType, Token, With};
+use super::{escape_control, ParserNode, StringLexError, StringLexErrorType, Token, With};
 
 #[derive(Debug, Clone)]
 /// Lexer error
@@ -89,10 +89,10 @@ impl Display for ParseError {
             ParseError::CyclicDependency(_) => write!(f, "Cyclic dependency"),
             // The path is the decoded string: shown escaped, a title is one line
             ParseError::FileNotFound(file) => {
-                write!(f, "File not found: {}", file.get().escape_debug())
+                write!(f, "File not found: {}", escape_control(file.get()))
             }
             ParseError::IOError(file, err) => {
-                write!(f, "IO Error: {} ({err})", file.get().escape_debug())
+                write!(f, "IO Error: {} ({err})", escape_control(file.get()))
             }
             ParseError::InvalidString(_info, _kind) => {
                 write!(f, "Invalid string")
@@ -147,10 +147,10 @@ impl DiagnosticMessage for ParseError {
                 Please remove the cyclic dependency to fix this error.
             ".to_string(),
             ParseError::FileNotFound(file) => {
-                format!("File not found: {}", file.get().escape_debug())
+                format!("File not found: {}", escape_control(file.get()))
             }
             ParseError::IOError(file, err) => {
-                format!("IO Error: {} ({err})", file.get().escape_debug())
+                format!("IO Error: {} ({err})", escape_control(file.get()))
             }
             ParseError::InvalidString(_, e) => {
                 match e.kind {
